@@ -162,6 +162,16 @@ def find_witness(prop, pcfg, o, seed):
                 if f.get('witness'): return f['witness']
         except Exception as e:  # the counterexample search decides nothing
             print('  (counterexample search failed: %s)' % str(e)[:200])
+    for rp in pcfg.get('replays', []):
+        if re.search(rp['for'], o.name):
+            try:
+                from . import engines
+                w = {'driver': rp['driver'], 'bin': rp.get('bin', 'replay'), 'args': rp.get('args', {}), 'history': rp.get('history', '')}
+                rr = engines.replay_witness(w)
+                w['replayed_on_real_code'] = rr
+                if rr.get('reproduced'): return w
+            except Exception as e:
+                print('  (replay driver failed: %s)' % str(e)[:200])
     w = pcfg.get('witness')
     if not w: return None
     try:
